@@ -407,6 +407,25 @@ def resume_value_forwarding(chk: Check, rule: str) -> None:
     chk.ob(rule, we, ok_null, 'resume value forwarded to the continuation exactly when it is not NULL '
            '(f(v) after resume(v), f() after resume())', kind='resume-value-forwarded')
     resume_value_reaches_future(chk, rule)
+    # every synchronous step function runs through utils.ensure_coroutine's wrapper: what the step returned must come out of it AS IT IS -- the running
+    # state classifies the value (command / plain result), a wrapper that looks inside it (awaits it, unwraps it) decides in its place
+    ec = prog.try_func('utils.ensure_coroutine.wrap')
+    if ec is None:
+        chk.ob(rule, 'utils.ensure_coroutine', False, 'the wrapper ensure_coroutine puts around a plain function was not found', kind='wrapper-returns-result-unchanged')
+    else:
+        from ..rules import Resolver as _R2
+        rets_ = [r for r in ast.walk(ec.node) if isinstance(r, ast.Return)]
+        va, kw = ec.node.args.vararg, ec.node.args.kwarg
+        outer_ = prog.func('utils.ensure_coroutine')
+        want_ = f'{outer_.params[0]}(*{va.arg}, **{kw.arg})' if va is not None and kw is not None and outer_.params else None
+        touched = [n for n in ast.walk(ec.node) if isinstance(n, (ast.Await, ast.Yield, ast.YieldFrom))]
+        stores_ = {}
+        for n in ast.walk(ec.node):
+            if isinstance(n, ast.Name) and isinstance(n.ctx, ast.Store):
+                stores_[n.id] = stores_.get(n.id, 0) + 1
+        ok = len(rets_) == 1 and rets_[0].value is not None and want_ is not None and _R2(ec).text(rets_[0].value) == want_ and not touched and all(v == 1 for v in stores_.values())
+        chk.ob(rule, ec, ok, 'the coroutine wrapper of a plain step function returns exactly what the function returned (no await / unwrapping of the value in between)',
+               node=touched[0] if touched else (rets_[0] if rets_ else None), kind='wrapper-returns-result-unchanged')
     from .common import event_guard_accepts_subclasses
     event_guard_accepts_subclasses(chk, rule)
     # "f() if resumed without a value" is decided by ``value == NULL``: the sentinel must equal nothing but itself
